@@ -7,6 +7,7 @@ import SqlDt.Model.Serde
 import SqlDt.Spec.Munch
 import SqlDt.Spec.Units
 import SqlDt.Spec.Values
+import SqlDt.Spec.Reading
 open SqlDt
 
 namespace Drv
@@ -224,6 +225,47 @@ def withTy (t : Arg) (k : Ty → Res) : Res :=
 
 def dummyClock : Clock := { year := 2000, month := 1, day := 1, hour := 0, minute := 0, second := 0, usec := 0 }
 
+/-! ### readings (Spec/Reading): one word per picture token -/
+
+def maskOf (s : String) : Option (List Bool) :=
+  if s == "-" then some [] else s.toList.mapM (fun c => if c == '1' then some true else if c == '0' then some false else none)
+
+def digitsOf (s : String) : Option (List Nat) :=
+  if s == "-" then some [] else s.toList.mapM (fun c => if '0' ≤ c ∧ c ≤ '9' then some (c.toNat - 48) else none)
+
+/-- `n.B.S.Z.N` number (S: 0 none, 1 '+', 2 '-'), `a.B.K.ABBR.MASK` name, `m.B.PM.MASK` meridian, `f.B.DIGITS` fraction,
+    `p.B` punctuation, `b.COUNT` blank token, `w.B.D` weekday number, `o` left out. -/
+def lexOf (w : String) : Option Spec.Lex :=
+  match w.splitOn "." with
+  | ["n", b, sg, z, n] => do
+    let sign ← (match sg with | "0" => some Spec.Sign.none | "1" => some .plus | "2" => some .minus | _ => none)
+    pure (.num (← b.toNat?) sign (← z.toNat?) (← n.toNat?))
+  | ["a", b, k, ab, mask] => do pure (.name (← b.toNat?) (← k.toNat?) (ab == "1") (← maskOf mask))
+  | ["m", b, pm, mask] => do pure (.meridian (← b.toNat?) (pm == "1") (← maskOf mask))
+  | ["f", b, ds] => do pure (.frac (← b.toNat?) (← digitsOf ds))
+  | ["p", b] => do pure (.punct (← b.toNat?))
+  | ["b", c] => do pure (.blank (← c.toNat?))
+  | ["w", b, d] => do pure (.dowNum (← b.toNat?) (← d.toNat?))
+  | ["o"] => some .omitted
+  | _ => none
+
+/-- `R.read TY s:PIC TB CLOCK(7) LEX…` → `s:TEXT fits delimited value|-`: the text of the reading and what it denotes. -/
+def readOp : List Arg → Res
+  | ty :: p :: .int tb :: y :: mo :: d :: h :: mi :: sc :: us :: lexes =>
+    withTy ty fun ty => text p fun p => clockOf [y, mo, d, h, mi, sc, us] fun now =>
+      match Spec.munch p with
+      | .error _ => .badArg
+      | .ok fields =>
+        let ls := lexes.map (fun a => match a with | .word w => lexOf w | _ => none)
+        if tb < 0 ∨ ls.length ≠ fields.length ∨ ls.any Option.isNone then .badArg
+        else
+          let items := fields.zip (ls.map (·.getD .omitted))
+          let fits := items.all (fun q => Spec.Lex.fits ty q.1 q.2)
+          .ok [.bytes (Spec.write items tb.toNat), .int (if fits then 1 else 0),
+               .int (if Spec.Delimited ty items then 1 else 0),
+               (match Spec.denote ty items now with | some v => .int v | none => .none)]
+  | _ => .badOp
+
 /-- Spec oracle mode (`--spec`): operations answered by the independent specifications of `SqlDt/Spec`. -/
 def specHandler (name : String) : Option (List Arg → Res) :=
   match name with
@@ -262,6 +304,7 @@ def specHandler (name : String) : Option (List Arg → Res) :=
        else if d < 1 ∨ d > 31 then .err .InvalidDay else if d > Spec.dim y m then .err .InvalidDate
        else okInt (Spec.dayNumber y m d)) | _ => .badOp
   | "D.last_day" => some fun | [n] => recv .D n fun n => let (y, m, _) := Spec.civil n; okInt (Spec.dayNumber y m (Spec.dim y m)) | _ => .badOp
+  | "R.read" => some readOp
   | _ => none
 
 /-- The operation table: name → handler. -/
